@@ -113,14 +113,17 @@ Print Assumptions C14_oracle_sound.
 (* tie to the source of this run (tools/gen_validator.py): _verify_sig branch table, fresh default storage,
    fetch arguments and caught exceptions are the ones the model hard-wires *)
 Theorem C14_source_tie :
-  Generated.ValidatorConsts.verify_sig_branches = sig_branches /\
+  (forall w k p, verify_sig w k p = match p_sig p with
+                                    | None => Err EAttr
+                                    | Some si => dispatch Generated.ValidatorConsts.verify_sig_branches w (s_type si) k p
+                                    end) /\
   (Generated.ValidatorConsts.cascade_default_storage_shared = false /\
    Generated.ValidatorConsts.lvs_default_storage_shared = false) /\
   Generated.ValidatorConsts.fetch_can_be_prefix = false /\
   Generated.ValidatorConsts.fetch_validated_by_next_level = true /\
   Generated.ValidatorConsts.catches_nothing_else = true.
 Proof.
-  exact (conj verify_sig_branches_agree (conj default_storage_fresh
+  exact (conj verify_sig_generated (conj default_storage_fresh
          (conj (proj1 (proj2 (proj2 fetch_shape))) (conj (proj1 (proj2 (proj2 (proj2 fetch_shape))))
                (proj2 (proj2 (proj2 (proj2 (proj2 (proj2 (proj2 fetch_shape))))))))))).
 Qed.
